@@ -310,7 +310,10 @@ def run_case(case, ctx):
         # the same Graph object after an edit (one edge toggled): nothing remembered about the earlier graph may be used
         es = list(G.edges)
         non = [(a, b) for a in G.nodes for b in G.nodes if repr(a) < repr(b) and not G.has_edge(a, b)]
-        if (seed % 3 == 0 and es) or not non:
+        if seed % 3 == 1 and es and non:  # one edge moved: node and edge counts stay the same
+            G.remove_edge(*es[0])
+            G.add_edge(*non[0])
+        elif (seed % 3 == 0 and es) or not non:
             if es:
                 G.remove_edge(*es[0])
         else:
